@@ -214,6 +214,16 @@ func (h *hookStore) RemoveMessage(mb, id string) error {
 	return err
 }
 
+// PurgeMessages is not called by the scanner as it is; if a scan ever does, the call is a removal step
+// like RemoveMessage: other clients' operations scheduled before the scanner's n-th removal run first.
+func (h *hookStore) PurgeMessages(mb string) error {
+	d := h.d
+	d.attempts++
+	pos := "r" + strconv.Itoa(d.attempts)
+	d.fire(func(in *inj) bool { return in.pos == pos && in.op[0] != "padd" }, pos)
+	return h.Store.PurgeMessages(mb)
+}
+
 func (d *drv) dump() string {
 	var names []string
 	for n := range d.names {
